@@ -36,6 +36,13 @@ def run(rep, tier):
                            function="SU_vector::RotateToB1 / RotateToB0 (sequence of plane rotations)", where="src/SUNalg.cpp"))
     rep.trust("spec lemma: R(i,j,-theta,delta) = R(i,j,theta,delta)^dagger, so the reversed, angle-negated sequence is the inverse map")
 
+    ctm = extract.instantiate(open(os.path.join(core.VERIF, "contracts", "C06_tm_l2.c")).read(), rep)
+    rep.dropped.append("Const::GetTransformationMatrix: lambda to_gsl -> function; std::complex expressions `sin(theta)*std::exp(std::complex<double>(0,-delta))`, `-std::conj(cp)` -> "
+                       "c_scale/c_expi/c_neg/c_conj (closed statement forms, must fire); unique_ptr return -> raw pointer; zgemm -> logged stub (BLAS contract assumed)")
+    for d in ((1, 2, 3, 4, 5, 7) if tier == "quick" else (1, 2, 3, 4, 5, 6, 7)):
+        qs.append(l2.Query("mixing_matrix.d%d" % d, ctm, ["D=%d" % d], trig=True, timeout=600, unwind=80,
+                           function="Const::GetTransformationMatrix (ordered product of plane rotations)", where="src/const.cpp"))
+
     def gens(q):
         df = l2.defs_of(q)
         if "LINEAR" in df or "II" not in df:
@@ -46,14 +53,39 @@ def run(rep, tier):
 
     def witness(q, sub):
         df = l2.defs_of(q)
-        if "II" not in df:
+        if "WHAT" in df and "II" not in df:
             return dict(family="ucmu", d=int(df["D"]), what=int(df["WHAT"]), seed=core.SEED)
+        if "II" not in df:            # RotateToB1/B0 ordering, mixing matrix
+            return dict(family="mixing", d=min(max(int(df["D"]), 2), 6), seed=core.SEED)
         w = dict(family="rotation", d=int(df["D"]), i=int(df["II"]), j=int(df["JJ"]), seed=core.SEED)
         if sub is not None:
             w["ia"] = int(l2.defs_of(sub.q)["IA"])
         return w
-    l2.run_symbolic(rep, "C06", qs, bdir, inc, gens=gens, lin=lambda q: "C06.L2.rotate.linear.d%s" % l2.defs_of(q)["D"],
+    l2.run_symbolic(rep, "C06", qs, bdir, inc + [os.path.join(core.REPO, "include", "SQuIDS")], gens=gens, lin=lambda q: "C06.L2.rotate.linear.d%s" % l2.defs_of(q)["D"],
                     witness=witness, replay_prog="algebra")
+    const_store(rep)
+
+
+def const_store(rep):
+    """Layer 1: the parameter store (plain CBMC harnesses, complete unwinding of constant-bound comparison loops)"""
+    import re, l1
+    src = extract.strip_comments(core.repo_read("src/const.cpp"))
+    for nm, a, b in (("th", "SQUIDS_MAX_HILBERT_DIM", "SQUIDS_MAX_HILBERT_DIM"), ("dcp", "SQUIDS_MAX_HILBERT_DIM", "SQUIDS_MAX_HILBERT_DIM"), ("de", "SQUIDS_MAX_HILBERT_DIM-1", "1")):
+        if not re.search(r'\b%s\s*\(\s*gsl_matrix_alloc\s*\(\s*%s\s*,\s*%s\s*\)\s*,\s*gsl_matrix_free\s*\)' % (nm, re.escape(a), re.escape(b)), src):
+            raise core.ExtractionError("Const::Const(): allocation of `%s` is not gsl_matrix_alloc(%s,%s) as the harness of contracts/const_l1.c assumes" % (nm, a, b))
+        rep.rule("const.ctor." + nm, 1)
+    bdir = core.builddir("C06.store")
+    inc = [os.path.join(core.REPO, "include", "SQuIDS"), os.path.join(core.VERIF, "spec")]
+    ct = extract.instantiate(open(os.path.join(core.VERIF, "contracts", "const_l1.c")).read(), rep)
+    names = ["SetMixingAngle", "GetMixingAngle", "SetPhase", "GetPhase", "SetEnergyDifference", "GetEnergyDifference"]
+    jobs = [l1.Job("store." + n, ct, "main", includes=inc, defines=["FN=%d" % k], unwind=40, complete=True, timeout=300, function_label="Const::" + n, where="src/const.cpp")
+            for k, n in enumerate(names)]
+    for res in core.pmap(lambda j: l1.run_job(j, bdir), jobs):
+        for p in l1.record(rep, res, "C06"):
+            oid = "C06.%s.%s" % (res.job.name, p.name)
+            path = core.write_replay("C06", oid, dict(obligation=p.name, description=p.desc, location=p.loc, verifier="cbmc", witness=dict(family="mixing", d=3, seed=core.SEED)))
+            ok = replaylib.run_replay("C06", path, prog="algebra")
+            rep.violation(oid, path, nofail=not ok)
 
 
 def replay(path):
